@@ -852,7 +852,6 @@ func (w *world) monitor() {
 		w.violate("persisted-signals-differ-from-commits", map[string]any{"persisted_nil": persisted, "commits": len(storedNow)})
 	}
 
-
 	// emissions
 	var gotHeads []felt.Felt
 	for {
